@@ -368,6 +368,12 @@ func (d *SimDisk) realPathOf(name string) string {
 	return fmt.Sprintf("%s/%016x", d.realDir, uint64(HashStr(name)))
 }
 
+// isRealTemp reports whether name is a real path inside the simulator's directory (a temporary
+// file the package created itself in real-file mode): such files are handled by the real os.
+func (d *SimDisk) isRealTemp(name string) bool {
+	return d.Real() && strings.HasPrefix(name, d.realDir+"/")
+}
+
 // Get returns the current content of a file (nil, false if it does not exist).
 func (d *SimDisk) Get(name string) ([]byte, bool) {
 	if d.Real() && d.dirty[name] {
@@ -403,6 +409,10 @@ func (d *SimDisk) Del(name string) {
 
 // RealPath is the hook behind verifsim.OpenReal / CreateReal / ... .
 func (d *SimDisk) RealPath(op, name string) (string, error) {
+	if d.isRealTemp(name) {
+		d.c.Event("disk.%s(<temp file>) [real file]", op)
+		return name, nil
+	}
 	d.c.Event("disk.%s(%s) [real file]", op, name)
 	d.c.C["disk_events"]++
 	p := d.realPathOf(name)
@@ -484,6 +494,10 @@ func (i simInfo) IsDir() bool        { return i.mode.IsDir() }
 func (i simInfo) Sys() interface{}   { return nil }
 
 func (d *SimDisk) Stat(name string) (fs.FileInfo, error) {
+	if d.isRealTemp(name) {
+		d.c.Event("disk.Stat(<temp file>)")
+		return os.Stat(name)
+	}
 	d.c.Event("disk.Stat(%s)", name)
 	d.c.C["disk_events"]++
 	if e := d.StatErr[name]; e != nil {
@@ -606,6 +620,10 @@ func (d *SimDisk) OpenFile(name string, flag int) (*verifsim.File, error) {
 }
 
 func (d *SimDisk) Remove(name string) error {
+	if d.isRealTemp(name) {
+		d.c.Event("disk.Remove(<temp file>)")
+		return os.Remove(name)
+	}
 	d.c.Event("disk.Remove(%s)", name)
 	if _, ok := d.Files[name]; !ok {
 		return &fs.PathError{Op: "remove", Path: name, Err: os.ErrNotExist}
